@@ -200,6 +200,10 @@ func (c *VCtx) callbackCall(fr *Frame, st *State, cc *ssa.CallCommon, f *Term, a
 	c.cancelCtx(st, cx, Not(Eq(cx, Null)))
 	// the callback may take time (it may close its own channels and cancel contexts)
 	c.observe(st)
+	// a callback that was handed bound methods of a monitor whose lock is held (broadcast / getWaitCh) may
+	// call them: each preserves the monitor invariant (verified separately), so afterwards the object is in
+	// some state satisfying its invariants
+	c.callbackMayUseMonitor(st, args)
 	for h := range c.externalMods(cc) {
 		c.havocHeap(st, h)
 	}
@@ -258,6 +262,12 @@ func (c *VCtx) recordRet(st *State, f *Term, v Val) {
 
 // spawn handles "go f(args)": the callee's precondition must hold; the callee is verified separately.
 func (c *VCtx) spawn(fr *Frame, st *State, cc *ssa.CallCommon, fv *FnVal, args []Val) {
+	// cells captured by a spawned closure are shared from now on
+	for _, b := range append(append([]Val{}, fv.Binds...), args...) {
+		if t, ok := b.(*Term); ok {
+			delete(c.localAtomics, t.S)
+		}
+	}
 	c.bumpCalls(st, c.fnID(bareName(FuncKey(fv.Fn))))
 	ct := c.eng.ContractOf(fv.Fn)
 	if ct == nil {
@@ -631,4 +641,39 @@ func (c *VCtx) mayCallBack(fn *ssa.Function, depth int, seen map[*ssa.Function]b
 		}
 	}
 	return false
+}
+
+func (c *VCtx) callbackMayUseMonitor(st *State, args []Val) {
+	for _, a := range args {
+		fv, ok := a.(*FnVal)
+		if !ok || len(fv.Binds) == 0 {
+			continue
+		}
+		recv, ok := fv.Binds[0].(*Term)
+		if !ok {
+			continue
+		}
+		for _, h := range st.held {
+			for _, m := range h.specs {
+				if m.obj.S != recv.S {
+					continue
+				}
+				own, whole := c.guardedHeaps(m.spec, m.objT)
+				for _, hn := range own {
+					hs := c.heapSorts[hn]
+					cur := c.heap(st, hn, hs)
+					_, vs := arrParts(hs)
+					st.heaps[hn] = c.name("h", Store(cur, m.obj, c.fresh("hv", vs)))
+				}
+				for _, hn := range whole {
+					c.havocHeap(st, hn)
+				}
+				sc := c.objScope(m, st, st)
+				for _, inv := range m.spec.Invs {
+					c.fact(Implies(st.pc, c.translateBool(sc, inv.E)))
+				}
+				return
+			}
+		}
+	}
 }
